@@ -161,6 +161,7 @@ def parse_observable(data, _valid_refs=None, allow_custom=False, interoperabilit
         if allow_custom:
             # flag allows for unknown custom objects too, but will not
             # be parsed into STIX observable object, just returned as is
+            del obj['_valid_refs']
             return obj
         raise ParseError(
             "Can't parse unknown observable type '%s'! For custom observables, "
